@@ -28,6 +28,9 @@ pub enum Call {
     FacetCount,
     /// paths / depth / dependencies of every acceptance condition
     PathQueries,
+    /// `Adf::fix_import()` on the live object (the documented repair step; must be harmless when
+    /// nothing needs repair)
+    FixImport,
     /// extra formulas built on the shared diagram, operands are the acceptance conditions and
     /// variables (interpreted like bddmodel ops on the issued list [bot, top, ac...])
     BddOps(Vec<Op>),
@@ -48,13 +51,14 @@ impl Call {
             Call::FormulaCountsNaive => "formulacounts",
             Call::FacetCount => "facet_count",
             Call::PathQueries => "path_queries",
+            Call::FixImport => "fix_import",
             Call::BddOps(_) => "bdd_ops",
         }
     }
     pub fn is_semantics(&self) -> bool {
         !matches!(
             self,
-            Call::FormulaCountsNaive | Call::FacetCount | Call::PathQueries | Call::BddOps(_)
+            Call::FormulaCountsNaive | Call::FacetCount | Call::PathQueries | Call::BddOps(_) | Call::FixImport
         )
     }
 }
@@ -73,6 +77,7 @@ pub fn call_strategy(with_bdd_ops: bool) -> BoxedStrategy<Call> {
         1 => Just(Call::FormulaCountsNaive),
         1 => Just(Call::FacetCount),
         2 => Just(Call::PathQueries),
+        1 => Just(Call::FixImport),
     ];
     if with_bdd_ops {
         prop_oneof![
@@ -166,6 +171,10 @@ pub fn exec(adf: &mut Adf, call: &Call) -> Result<Raw, String> {
                 })
                 .collect(),
         ),
+        Call::FixImport => {
+            adf.fix_import();
+            Raw::Numbers(vec![])
+        }
         Call::BddOps(ops) => {
             // issued list: bot, top, acceptance conditions
             let mut issued: Vec<Term> = vec![Term::BOT, Term::TOP];
